@@ -93,8 +93,9 @@ claim("C12", "proof",
       "Lean 4 theorems (Props/C12.lean), by mutual structural induction over every statement tree, about the model of visit_statement / "
       "complete_basic_block: the lifted CFG has an entry block without predecessors, mirrored and in-range successor/predecessor sets, a "
       "smaller-indexed predecessor for every other block, hence every block is reachable, 'i dominates j' implies i <= j, and the graph is "
-      "Rooted so that all of C15 applies to it (the DominatorTree asserts cannot fire). PARTIAL: the clauses 'branch only as last statement "
-      "with targets among the successors', 'at most two successors' and 'recorded loop depth' are not yet proved for all inputs; they are "
+      "Rooted so that all of C15 applies to it (the DominatorTree asserts cannot fire); a branch is only ever the last statement of its "
+      "block (C12_branch_last). PARTIAL: the clauses 'branch targets among the successors', 'at most two successors' and 'recorded loop "
+      "depth' are not yet proved for all inputs; they are "
       "part of the executable predicate CfgSpec.wfProblems (dominance from the verified C15 computation), evaluated on every real CFG before "
       "and after SSA. Tie: the model run on the real AST reproduces the real CFG block for block on hand-written nesting patterns and "
       "generated definitions.",
